@@ -396,6 +396,7 @@ def main():
     jobs = 5
     only = None
     limit = None
+    redo = None
     for i, a in enumerate(args):
         if a == '--jobs':
             jobs = int(args[i + 1])
@@ -403,6 +404,8 @@ def main():
             limit = int(args[i + 1])
         if a == '--only':
             only = {int(x) for x in args[i + 1].split(',')}
+        if a == '--redo':
+            redo = set(args[i + 1].split(','))
     os.makedirs(OUT, exist_ok=True)
     done = {}
     if os.path.exists(path) and only is None:
@@ -411,6 +414,13 @@ def main():
             done[(r['file'], r['start'], r['end'], r['new'])] = r
     todo = [m for m in ms if (only is None or m['id'] in only)
             and (only is not None or (m['file'], m['start'], m['end'], m['new']) not in done)]
+    if redo:
+        todo = [m for m in ms
+                if done.get((m['file'], m['start'], m['end'], m['new']), {}).get('status') in redo]
+        keep = [r for k, r in done.items() if r.get('status') not in redo]
+        with open(path, 'w') as f:
+            for r in keep:
+                f.write(json.dumps(r) + '\n')
     if limit:
         todo = todo[:limit]
     print('%d mutants, %d to run' % (len(ms), len(todo)), flush=True)
